@@ -292,6 +292,11 @@ func (c *Cache) getSubscription(name string, subscribe bool) (*EventSubscription
 			eventSub.enqueueEvent(subj, payload)
 		})
 		if err != nil {
+			// Release the count taken above, or the event subscription
+			// would be kept in the cache forever.
+			eventSub.mu.Lock()
+			eventSub.removeCount(1)
+			eventSub.mu.Unlock()
 			return nil, err
 		}
 
